@@ -526,6 +526,7 @@ def run(tier):
     rule_R6(res, prog)
     rule_R7(res, prog)
     rule_R8(res, prog)
+    rule_R9(res, prog)
     return res.finish()
 
 
@@ -795,3 +796,42 @@ def rule_R8(res, prog):
             res.instance(rid, "%s:%s cursor advance consumes a fresh length" % (fn.name, ln), not hits, finding=f_)
     res.stats["R8_functions_with_advances"] = n_fn
     res.floor(rid, 20)
+
+
+def rule_R9(res, prog):
+    """RFC 6347 4.2.2: the exchange ClientHello(message_seq 0), HelloVerifyRequest(0), ClientHello(1), ServerHello(1): a
+    HelloVerifyRequest always carries message_seq 0, also when a cookie-less ClientHello is answered a second time.  In
+    writeHelloVerifyRequest every store to ssl->msn is the constant 0 and one of them lies on every path to the header
+    writer."""
+    from sa import cfgutil as cu
+    rid = "C10.R9"
+    res.rule(rid, "DTLS HelloVerifyRequest is written with message_seq 0 (RFC 6347 4.2.2)")
+    lst = prog.by_name.get("writeHelloVerifyRequest")
+    if not lst:
+        if prog.by_name.get("dtlsChkReplayWindow"):
+            raise AnalysisBroken("C10.R9: writeHelloVerifyRequest vanished")
+        res.floor(rid, 0)
+        return
+    fn = lst[0]
+    stores = []
+    for b, ln, m in fn.nodes():
+        if m.get("k") == "bin" and m["op"] in ("=", "+=", "-=") and (strip(m["l"]) or {}).get("f") == "msn":
+            r = strip(m["r"])
+            stores.append((ln, m["op"] == "=" and r is not None and r.get("k") == "int" and r["v"] == 0))
+
+    def zero_msn(x):
+        return any(m.get("k") == "bin" and m["op"] == "=" and (strip(m["l"]) or {}).get("f") == "msn" and
+                   (strip(m["r"]) or {}).get("k") == "int" and strip(m["r"])["v"] == 0 for m in walk(x))
+    esc = cu.escapes(fn, (fn.entry, None), zero_msn,
+                     target_expr=lambda y: any(q.get("k") == "call" and q.get("fn") == "writeRecordHeader" for q in walk(y)))
+    bad = [ln for (ln, ok) in stores if not ok]
+    f_ = None
+    if esc is not None or bad:
+        f_ = Finding(PROP, rid, fn.name, "HelloVerifyRequest message_seq is not the constant 0",
+                     "%s:%s writeHelloVerifyRequest(): %s: a HelloVerifyRequest sent in answer to a repeated cookie-less ClientHello "
+                     "carries a message_seq other than 0; an RFC 6347 client (next_receive_seq 0) queues it as a future message and the "
+                     "handshake never completes" % (fn.relfile, (bad or [fn.line])[0],
+                                                     ("ssl->msn is stored from a non-constant at line(s) %s" % bad) if bad else
+                                                     "the header is written without ssl->msn = 0 on the path"), file=fn.relfile, line=(bad or [fn.line])[0])
+    res.instance(rid, "writeHelloVerifyRequest: ssl->msn = 0 on every path to the header (%d store(s))" % len(stores), f_ is None, finding=f_)
+    res.floor(rid, 1)
